@@ -250,6 +250,25 @@ def run_handles_only(prog, rep):
             ok, why = _cache_coherent(prog, q, f['name'])
             rule.check(ok, '%s|cache|%s' % (q, f['name']), '%s:%s' % (prog.rel(rec['file']), rec['line']), q, 'lookup table %s: %s' % (f['name'], why),
                        'lookup table %s (%s) can go stale: %s' % (f['name'], f['type'], why))
+    # a member that is written inside a const member function is a lazily filled cache (only 'mutable' members can be), whatever its type
+    nconst = 0
+    lazy = []
+    for f in sorted(prog.funcs.values(), key=lambda f: (f.file, f.line)):
+        if f.body is None or not (f.cls or '').startswith('nix::hdf5::') or not (f.cls or '').endswith('HDF5') or not f.is_const:
+            continue
+        nconst += 1
+        for a in f.walk():
+            tgt = None
+            if a.k == 'assign' or (a.k == 'call' and a.get('op') in ('=', '+=')):
+                tgt = unwrap(a.c[0]) if a.c else None
+            elif a.k == 'call' and a.get('member') and (a.callee or {}).get('name') in ('reset', 'swap', 'emplace', 'insert', 'push_back', 'operator[]') and a.c:
+                tgt = unwrap(a.c[0])
+            if tgt is not None and tgt.k == 'member' and tgt.decl.get('kind') == 'field' and (not tgt.c or tgt.c[0] is None or unwrap(tgt.c[0]).k == 'this'):
+                lazy.append((f, a, tgt.decl.get('name')))
+    if nconst < 50:
+        raise AnalysisBroken('R-NOCACHE: only %d const backend methods found' % nconst)
+    rule.check(not lazy, 'backend|no-lazy-member', 'backend/hdf5', 'nix::hdf5::*HDF5', 'no const backend method writes a data member (%d const methods)' % nconst,
+               '; '.join('%s fills member %s at %s: the object keeps answering from it after the entity it points to was deleted or changed through another handle' % (f.q, nm, rep.where(a)) for f, a, nm in lazy[:2]))
     # the one handle cache: optGroup. Either every access looks the container up again, or no cached container is ever unlinked.
     og = prog.fn('nix::hdf5::optGroup::operator()')
     sem = Sem(prog)
@@ -338,3 +357,66 @@ def run_getters(prog, rep, only=None, floor=10):
     if n < floor:
         raise AnalysisBroken('R-GETTER: only %d optional getters found' % n)
     return rule
+
+
+CONST_MUTATORS = ('setAttr', 'setData', 'createData', 'createLink', 'removeAttr', 'removeData', 'removeGroup', 'removeAllLinks', 'renameGroup', 'setExtent', 'write', 'deleteLink', 'createGroup')
+
+
+def run_const_pure(prog, rep):
+    """a const member of a backend entity class (a getter) performs no storage mutation: no creating container lookup, no set/create/remove"""
+    rule = rep.rule('R-GETPURE', 'const backend methods (getters, counts, has-queries) never create or modify anything in the file', floor=100)
+    n = 0
+    for f in sorted(prog.funcs.values(), key=lambda f: (f.file, f.line)):
+        if f.body is None or not (f.cls or '').startswith('nix::hdf5::') or not (f.cls or '').endswith('HDF5') or not f.is_const:
+            continue
+        n += 1
+        bad = []
+        for c in f.calls():
+            nm = c.callee.get('name')
+            cls = c.callee.get('cls') or ''
+            if not cls.startswith('nix::hdf5::'):
+                continue
+            a = real_args(c)
+            if nm in CONST_MUTATORS and ('H5Group' in cls or 'DataSet' in cls or 'LocID' in cls or 'H5Object' in cls):
+                bad.append('%s at line %s' % (nm, c.l))
+            elif (nm == 'operator()' and 'optGroup' in cls) or nm == 'groupForObjectType':
+                args = [x for x in c.c[1:]] if nm == 'operator()' else a[1:]
+                last = args[-1] if args else None
+                if last is None:
+                    create = ('k', False)
+                elif last.k == 'defarg':
+                    create = term(unwrap(last.c[0])) if last.c and last.c[0] is not None else ('k', False)
+                else:
+                    create = term(unwrap(last))
+                own_param = create[0] == 'v' and any(p['lid'] == create[1] for p in f.params)
+                if create != ('k', False) and not own_param:
+                    bad.append('container lookup %s creates the group when it is missing (line %s)' % (c.src(30), c.l))
+            elif nm == 'openGroup' and 'H5Group' in cls:
+                second = a[1] if len(a) > 1 else None
+                create = ('k', True)
+                if second is not None:
+                    create = term(unwrap(second.c[0])) if second.k == 'defarg' and second.c else term(unwrap(second))
+                if create != ('k', False):
+                    # opening a group that is known to exist is not a creation: accept when dominated by a has-test on the same name
+                    facts = Sem(prog).facts_at(f, c.id) if False else []
+                    bad_here = True
+                    key = term(unwrap(a[0])) if a else None
+                    for (t, pol) in _facts(prog, f, c):
+                        if pol and isinstance(t, tuple) and len(t) >= 3 and t[0] in ('m', 'c') and str(t[1]).split('::')[-1].startswith('has') and key in t:
+                            bad_here = False
+                    if bad_here:
+                        bad.append('openGroup(%s) with create=true and no preceding has-test (line %s)' % (a[0].src(20) if a else '', c.l))
+        rule.check(not bad, '%s%s' % (f.q, '(%d)' % len(f.params)), rep.where(f), f.label(), 'no mutating storage call', 'a getter writes to the file: %s - on a ReadOnly file the query throws, on a writable one reading changes the file' % '; '.join(bad[:2]))
+    if n < 100:
+        raise AnalysisBroken('R-GETPURE: only %d const backend methods found' % n)
+    return rule
+
+
+_SEMC = {}
+
+
+def _facts(prog, f, c):
+    s = _SEMC.get(id(prog))
+    if s is None:
+        s = _SEMC[id(prog)] = Sem(prog)
+    return s.facts_at(f, c.id)
